@@ -1,7 +1,21 @@
 """C06 — priority queue pops in comparator order; handles always track their element."""
 import itertools
 from collections import Counter
-from lib.core import Case
+import os
+from lib.core import Case, GenError, write_if_changed, LEAN
+from lib import cbuild
+from gen import heap_gen, cfun
+
+def regen(ctx):
+    """Gen/HeapIdx.lean: PARENT_OF / LEFT_OF / RIGHT_OF, the guards of aws_priority_queue_remove and the scheduler's
+    s_compare_timestamps, re-translated from /repo's current source (gen/heap_gen.py); the bridge theorems of
+    Props/C06.lean and Props/C07.lean are re-proved against it"""
+    try:
+        text, _ = heap_gen.generate(cbuild.REPO, cbuild.config_include())
+    except cfun.GenError as e:
+        raise GenError(str(e))
+    write_if_changed(os.path.join(LEAN, "AwsVerif", "Gen", "HeapIdx.lean"), text)
+
 
 ID = "C06"
 LEAN_MODULES = ["AwsVerif.Props.C06"]
@@ -12,9 +26,12 @@ HARNESS = dict(name="heap", flavour="asan")
 P_DIFF_CONCRETE = False
 TIMEOUT = 120
 NOT_PROVED = []
-TRUSTED = ["hand model lean/AwsVerif/Model/Heap.lean (tied by this correspondence run only)",
+TRUSTED = ["hand model lean/AwsVerif/Model/Heap.lean (tied by this correspondence run; its index macros and stale-handle guard "
+           "additionally by bridge theorems to Gen/HeapIdx.lean, regenerated from priority_queue.c on every run)",
+           "translator gen/cfun.py + gen/heap_gen.py (clang-14 JSON AST -> Lean; state reads of the remove guards lifted to parameters)",
            "harness/heap.c incl. its in-harness monitor of heap order / handle<->slot bijection on the public struct fields"]
-ASSUMPTIONS = ["comparator is a total preorder on elements that looks at the key only (theorems: keys are Nat with <=)",
+ASSUMPTIONS = ["comparator looks at the key only and `not (pred(a,b) > 0)` is a total preorder on keys (hypothesis CmpOK of every "
+               "theorem; instances proved: Nat with <= (harness comparator), generated s_compare_timestamps (C07))",
                "a handle passed to push_ref is not currently in the queue (API contract; checked with node_is_in_queue)",
                "fewer than 2^63 operations (LEFT_OF/RIGHT_OF are modelled with their 64-bit wrap-around)",
                "allocation does not fail (aws_mem_acquire aborts on NULL)"]
@@ -333,7 +350,7 @@ MANIFEST = dict(
           "static queue refuses pushes beyond its capacity and otherwise steps exactly like a dynamic one. Tied to /repo by a "
           "correspondence run of the compiled model against the real aws_priority_queue (ASan/UBSan, element sizes across the "
           "128-byte swap slice) plus a direct multiset/handle oracle and an in-harness monitor on the public struct fields."),
-    note=("Trusted: Lean kernel; hand-written model Model/Heap.lean (tied by correspondence only); harness. Keys are Nat with <= "
-          "(a total preorder; a general comparator is not modelled). Allocation failure not modelled."),
+    note=("Trusted: Lean kernel; hand-written model Model/Heap.lean (tied by correspondence only); harness. Nat with <= "
+          "is one instance; theorems hold for every comparator that is a total preorder on keys (CmpOK). Allocation failure not modelled."),
     technique="Lean 4 inductive invariants over all op sequences + model/implementation differential run + direct oracle",
 )
